@@ -19,14 +19,19 @@ RULE = ("(a) short exact histories (<=6 ops) of predict/update compared with the
         "uninformative prior (variance 1e6..1e12, and 1 against reading noise 1e-12) and receive precise readings of combinations of ALL "
         "states (2- and 3-state filters, Python and generated C++), measured relative to the covariance's OWN magnitude; (d) fixed "
         "histories ticked through formak.runtime.ManagedFilter on the mass/z/v/a example from covariances with an exactly zero variance "
-        "(each state known exactly in turn, everything known) and with an exact (zero-noise) sensor that makes the filter hold one")
+        "(each state known exactly in turn, everything known) and with an exact (zero-noise) sensor that makes the filter hold one; "
+        "(e) fixed histories on the mass/z/v/a example (thrust noise 1 and 0 = exactly correlated states) whose starting covariance has small "
+        "whole-number entries and is handed over as a float64, float32, int64 or int32 array (the same symmetric PSD matrix in every storage type)")
 NOTE = ["the theorem (C09.invariant) is over exact arithmetic; on binary64 the claim checked on the implementation is: no AssertionError on a "
         "history whose exact counterpart is PSD, asymmetry and min eigenvalue >= -1e-9 * max|P|",
         "min eigenvalue measured with numpy eigvalsh of the symmetrised matrix",
         "uninformative-prior histories (c): the posterior is 10..18 orders of magnitude smaller than the prior, so 'relative to their magnitude' "
         "is taken literally there: asymmetry and min eigenvalue are divided by max|P| of the returned matrix itself (no floor of 1), same 1e-9",
         "managed-filter histories (d): the covariance held before every tick is measured valid by the harness itself, so ANY exception of "
-        "the tick (not only AssertionError) is a refusal of a valid covariance; returned and held covariances are measured as in (c)"]
+        "the tick (not only AssertionError) is a refusal of a valid covariance; returned and held covariances are measured as in (c)",
+        "storage-type histories (e): the entries (small whole numbers) are exactly representable in every storage type offered, so each array IS "
+        "the same symmetric PSD covariance and lies inside the quantifier; the oracle is the one of (b) (asymmetry and min eigenvalue >= -1e-9 * "
+        "max(1, max|P|), measured in binary64 by the harness) and any exception of a step is a refusal; nothing is demanded of the returned dtype"]
 PARTIAL = ["PSD-ness after binary64 rounding is measured on the implementation, not proven"]
 
 
@@ -451,6 +456,73 @@ def managed_zero_variance_histories(ctx):
                      f"(symmetric PSD) covariance with {fk.exc_kind(e)} ({(str(e).splitlines() or [''])[0][:160]})", dict(case, tick=tick))
 
 
+STORAGE_TYPES = ["float64", "float32", "int64", "int32"]
+
+
+def storage_type_histories(ctx):
+    """the same symmetric PSD starting covariance (small whole-number entries, exactly representable in every type offered) handed to
+    Covariance.from_data as a float64 / float32 / int64 / int32 array (a covariance read from a single-precision log, or written as
+    np.diag([4, 1, 1, 1]) / np.eye(n, dtype=int)); then a fixed history of predictions (dt cycling through 0.1, 0.05, 0.013) with a
+    sensor update after every fourth, on the project's mass/z/v/a example with thrust noise 1 and with thrust noise 0 (mass and a stay
+    exactly correlated: rank deficient covariances). Every returned covariance must be symmetric and PSD relative to its magnitude
+    and no step may refuse. Inputs are fixed (no draws from ctx.rng)."""
+    import random
+    from fractions import Fraction as Fr
+    d = project_model()
+    names = sorted(s.name for s in d.state)
+    A = np.array([[1, 0, 0, 0], [1, 1, 0, 0], [0, -1, 2, 0], [1, 0, 1, 1]])
+    B = np.array([[1, 0], [1, 0], [0, 1], [2, -1]])
+    starts = [("diagonal", np.diag([4, 1, 1, 1])), ("identity", np.eye(4, dtype=int)), ("full", A @ A.T), ("rank-2", B @ B.T)]
+    nsteps = 24 if ctx.quick else 120
+    for thrust_noise in (Fr(1), Fr(0)):
+        try:
+            ekf = eh.compile_ekf(d, {"thrust": thrust_noise}, {"simple": {"reading_v": Fr(1)}, "alt": {"alt_z": Fr(1, 2), "alt_v": Fr(1, 3)}}, {},
+                                 random.Random(911), cse=True, filtering=None, max_dt=0.1)
+        except Exception as e:
+            ctx.fail(f"compile-ekf-raises:{fk.exc_kind(e)}", repr(e)[:300], {"def": d.describe(), "thrust_noise": str(thrust_noise)}); continue
+        for start_label, P0 in starts:
+            for tname in STORAGE_TYPES:
+                arr = np.array(P0, dtype=getattr(np, tname))
+                label = f"thrust-noise={thrust_noise} start={start_label} storage={tname}"
+                case = {"model": "storage-type mass/z/v/a", "variant": label, "def": d.describe(), "thrust_noise": str(thrust_noise),
+                        "start": np.asarray(P0).tolist(), "storage_type": tname, "steps": nsteps}
+                ctx.case(case, True); ctx.count("model=storage-type"); ctx.count(f"storage={tname}")
+                if not np.array_equal(arr.astype(float), np.asarray(P0, dtype=float)):
+                    ctx.count("storage_type_not_exact"); continue          # not the same matrix: outside the stream
+                ident = "float64" if tname == "float64" else ("single-precision" if tname == "float32" else "integer")
+                op = "start"
+                try:
+                    with fk.quiet():
+                        st = ekf.State(mass=1.0, z=0.0, v=0.0, a=0.0)
+                        cov = ekf.Covariance.from_data(arr)
+                        for i in range(nsteps):
+                            op = f"prediction {i}"
+                            st, cov = ekf.process_model([0.1, 0.05, 0.013][i % 3], st, cov, ekf.Control(thrust=9.8))
+                            P = np.asarray(getattr(cov, "data", None), dtype=float)
+                            if i % 4 == 3 and P.shape == (4, 4) and np.all(np.isfinite(P)) and min_eig_rel(P)[0] >= -1e-9 and min_eig_rel(P)[1] <= 1e-9:
+                                key = "simple" if i % 8 == 3 else "alt"
+                                op = f"update:{key} after prediction {i}"
+                                pred = ekf.sensor_models[key].model(st)
+                                z = ekf.make_reading(key, data=np.asarray(pred.data, dtype=float) + 0.1)
+                                st, cov = ekf.sensor_model(st, cov, sensor_key=key, sensor_reading=z)
+                                P = np.asarray(getattr(cov, "data", None), dtype=float)
+                            if P.shape != (4, 4):
+                                ctx.fail(f"covariance-invalid:storage-type:{ident}", f"{label}: after {op} the covariance has shape {P.shape}", dict(case, op=op))
+                                break
+                            if not (np.all(np.isfinite(P)) and np.all(np.isfinite(np.asarray(st.data, dtype=float)))):
+                                ctx.count("history_diverged"); break
+                            me, asym = min_eig_rel(P)
+                            if me < -1e-9 or asym > 1e-9:
+                                ctx.fail(f"covariance-invalid:storage-type:{ident}", f"{label}: after {op} the covariance has min eigenvalue/scale={me:.3e}, "
+                                         f"asymmetry/scale={asym:.3e}: {P.tolist()}", dict(case, op=op))
+                                break
+                except AssertionError as e:
+                    ctx.fail(f"covariance-refused:storage-type:{ident}", f"{label}: {op} refuses a valid covariance "
+                             f"({(str(e).splitlines() or ['AssertionError'])[0][:120]})", dict(case, op=op))
+                except Exception as e:
+                    ctx.fail(f"history-raises:{fk.exc_kind(e)}:storage-type:{ident}", f"{label}: {op}: {e!r}"[:300], dict(case, op=op))
+
+
 def run(ctx):
     audit = core.lean_audit("C09")
     # (a) short exact histories against the Lean model (predict / update chains)
@@ -509,6 +581,7 @@ def run(ctx):
     uninformative_prior_histories(ctx)
     uninformative_prior_cpp(ctx)
     managed_zero_variance_histories(ctx)
+    storage_type_histories(ctx)
     return core.finish(ctx, audit, NOTE, RULE, PARTIAL)
 
 
